@@ -108,7 +108,13 @@ def _weighted(P, a, fn, dflt, w1, w2, va, vb):
     ctx = {'harness': 'weighted_case', 'impl': impl, 'ka': ka, 'kb': kb, 'fn': fn, 'dflt': dflt}
     # the exact result must be representable (overflow is outside the documented formula)
     lo, hi = -2 ** 63, 2 ** 63 - 1
-    x, y = build(cl, ka, A, va), build(cl, kb, B, vb)
+    if P.get('same'):
+        # the very same object as both operands
+        x = y = build(cl, ka, A, va)
+        B, vb = A, va
+        ctx['same'] = True
+    else:
+        x, y = build(cl, ka, A, va), build(cl, kb, B, vb)
     want = expect(fn, ka, kb, A, B, va, vb, w1, w2)      # traced for Python: the formula is evaluated on the symbols
     if want[2] is not None and want[1] == 'Bucket':
         for _, v in want[2]:
@@ -136,6 +142,9 @@ def _weighted(P, a, fn, dflt, w1, w2, va, vb):
     wtype = cl['Set'] if want[1] == 'Set' else cl['Bucket']
     if type(c) is not wtype:
         fail('result container is not of the documented kind', ctx)
+        return
+    if want[1] == 'Bucket' and (c is x or c is y):
+        fail('the weighted result is an operand itself, not a new container', ctx)
         return
     got = list(c.keys()) if want[1] == 'Set' else list(c.items())
     if want[1] == 'Set':
